@@ -51,6 +51,25 @@ func (p *Path) PhiEdge(phi *ssa.Phi) ssa.Value {
 	return nil
 }
 
+// PhiEdgeAt resolves phi to the operand selected at the last entry into its block at or before position at.
+func (p *Path) PhiEdgeAt(phi *ssa.Phi, at int) ssa.Value {
+	b := phi.Block()
+	if at >= len(p.Blocks) {
+		at = len(p.Blocks) - 1
+	}
+	for i := at; i > 0; i-- {
+		if p.Blocks[i] == b {
+			pred := p.Blocks[i-1]
+			for j, q := range b.Preds {
+				if q == pred {
+					return phi.Edges[j]
+				}
+			}
+		}
+	}
+	return nil
+}
+
 // Instrs returns the instructions executed on the path, in order.
 func (p *Path) Instrs() []ssa.Instruction {
 	var out []ssa.Instruction
